@@ -390,6 +390,9 @@ auto cpc_compressor<A>::uncompress_surprising_values(const uint32_t* data, uint3
   vector_u32 pairs(num_pairs, 0, allocator);
   const uint8_t num_base_bits = golomb_choose_number_of_base_bits(k + num_pairs, num_pairs);
   low_level_uncompress_pairs(pairs.data(), num_pairs, num_base_bits, data, data_words);
+  for (uint32_t i = 0; i < num_pairs; i++) {
+    if ((pairs[i] >> 6) >= k) throw std::out_of_range("row index out of range for lg_k " + std::to_string(lg_k));
+  }
   return pairs;
 }
 
